@@ -37,6 +37,21 @@ def rand_poly(rng, shape=None, names=None, maxterms=3, maxexp=3, dtype="int64", 
     return {"names": list(names), "exponents": [list(r) for r in rows], "coefficients": coeffs, "dtype": dtype}
 
 
+def permute_names(rng, spec):
+    """The same polynomial with its indeterminates listed in another order (names and exponent columns permuted together):
+    name tuples need not be sorted - ('q1', 'q0') is a legal, if unusual, tuple."""
+    D = len(spec["names"])
+    if D < 2:
+        return spec
+    order = list(range(D))
+    while order == list(range(D)):
+        rng.shuffle(order)
+    out = dict(spec)
+    out["names"] = [spec["names"][d] for d in order]
+    out["exponents"] = [[row[d] for d in order] for row in spec["exponents"]]
+    return out
+
+
 def rand_operand(rng, shape=None, allow_plain=True, **kw):
     r = rng.random()
     if allow_plain and r < 0.12:
